@@ -21,6 +21,9 @@ const ARG_POOL: &[&str] = &[
     "\"-0\"", "\"1e3\"", "\"[\"", "\"(\"", "null", "true", "false", "[]", "{}", "[1, \"é\", null]",
     "{\"a\": 1}", "[1, 2, 3]", "[\"é\", \"😀\"]", "[[1], [2]]", "\"日本語テキスト\"", "18446744073709551615",
     "-9223372036854775808", "0.1", "\"2024-01-01T00:00:00Z\"", "\"Z\"", "\"+25:00\"",
+    // values only arithmetic can make: infinities and NaN out of finite operands
+    "1e308", "(* 1e308 10)", "(- 0 (* 1e308 10))", "(- (* 1e308 10) (* 1e308 10))", "(* 0 (* 1e308 10))",
+    "[1, (* 0 (* 1e308 10)), 2]", "9223372036854775807", "-1.0", "5e-324",
 ];
 
 const SMALL_ARGS: &[&str] = &["0", "1", "2", "3", "10", "100", "-1", "1.5", "null", "\"a\"", "[1, 2]", ".arr"];
@@ -140,13 +143,13 @@ impl Property for C05 {
         "exploration"
     }
     fn rule(&self) -> &'static str {
-        "Stream half (what simulation decides): a valid generated stream is corrupted by 1..6 operators drawn from {bit flip, byte insert/delete/duplicate-range, splice with a second stream, truncation = producer crash at an arbitrary byte, invalid UTF-8 sequences, random byte}, or is a random string over 24 JSON-significant bytes, or a nest of up to 64 brackets, and is delivered through the SimSource stub under a seeded chunking/EINTR plan to a pipeline from the swarm grammar under any --on-error policy. Expression half (reach limited to the corpus): every function name and alias scraped from the working tree (exec, trigger, now, env removed) called with arity-correct arguments from a pool of ill-typed, empty, non-ASCII and boundary values, nested up to depth 2, used as --select/--filter/--sort-by/--group-by/--split-by over schema records; documented examples; expression texts with multi-byte characters around byte 32. Oracle: no panic, no simulator abort (event budget; read calls <= 2*len+64), result is Ok or Err. evaluations = jawk executions; non-trivial = the stream was actually corrupted (and the corruption consumed) or the expression was evaluated on at least one record; distinct = distinct abstract traces."
+        "Stream half (what simulation decides): a valid generated stream is corrupted by 1..6 operators drawn from {bit flip, byte insert/delete/duplicate-range, splice with a second stream, truncation = producer crash at an arbitrary byte, invalid UTF-8 sequences, random byte}, or is a random string over 24 JSON-significant bytes, or a nest of up to 64 brackets, or a short fragment (valid, corrupted or random) repeated 60..400 times (long histories for whatever a reader accumulates), and is delivered through the SimSource stub under a seeded chunking/EINTR plan - on stdin or, in a quarter of the scenarios, as a file argument behind the opener seam (hook H2) underneath jawk's own BufReader - to a pipeline from the swarm grammar under any --on-error policy. Expression half (reach limited to the corpus): every function name and alias scraped from the working tree (exec, trigger, now, env removed) called with arity-correct arguments from a pool of ill-typed, empty, non-ASCII and boundary values, nested up to depth 2, used as --select/--filter/--sort-by/--group-by/--split-by over schema records; documented examples; expression texts with multi-byte characters around byte 32. Oracle: no panic, no simulator abort (event budget; read calls <= 2*len+64), result is Ok or Err. evaluations = jawk executions; non-trivial = the stream was actually corrupted (and the corruption consumed) or the expression was evaluated on at least one record; distinct = distinct abstract traces."
     }
     fn assumptions(&self) -> Vec<String> {
         vec![
             "no exhaustive enumeration of short strings is attempted (that would be bounded model checking); the alphabet family samples that region".into(),
             "resource exhaustion is out of scope: nesting <= 64, range/cross-like amplifiers get literals <= 100, streams <= 4 KiB".into(),
-            "a loop that touches no seam is only caught by the 120 s wall-clock backstop".into(),
+            "a loop that touches no seam is only caught by the wall-clock backstop (45 s in the batch, then 90 s alone in a fresh process)".into(),
             "an abort (stack overflow, allocation failure) would kill the harness process and show up as a harness error, not as a replayable violation".into(),
         ]
     }
@@ -172,13 +175,14 @@ impl Property for C05 {
     }
 
     fn generate(&self, rng: &mut Rng, tier: Tier) -> Case {
-        let family = match rng.below(20) {
+        let family = match rng.below(22) {
             0..=6 => "mutated",
             7..=8 => "alphabet",
             9 => "nesting",
             10..=16 => "ill-typed",
             17 => "documented",
-            _ => "expr-text",
+            18..=19 => "expr-text",
+            _ => "repeated",
         };
         let mut case = Case::new("C05", family);
         let max_records = if tier == Tier::Thorough { 30 } else { 8 };
@@ -224,6 +228,50 @@ impl Property for C05 {
             "alphabet" => {
                 let n = rng.range(0, 14);
                 let data: Vec<u8> = (0..n).map(|_| *rng.pick(ALPHABET)).collect();
+                case.pieces = vec![Piece::raw(data)];
+                if rng.chance(1, 2) {
+                    let mut wish = PipeWish::any();
+                    wish.allow_corpus = false;
+                    case.opts = gen_pipe(rng, &wish).opts;
+                }
+                case.opts.push(policy_opt(*rng.pick(&[
+                    Policy::Ignore,
+                    Policy::Panic,
+                    Policy::Stderr,
+                    Policy::Stdout,
+                ])));
+            }
+            "repeated" => {
+                // a long history of the same short fragment (valid, corrupted or random):
+                // whatever a reader accumulates per value or per error gets its chance to
+                // overflow, leak or saturate inside one stream
+                let mut frag: Vec<u8> = match rng.below(4) {
+                    0 => {
+                        let n = rng.range(1, 8);
+                        (0..n).map(|_| *rng.pick(ALPHABET)).collect()
+                    }
+                    1 => (*rng.pick(&[&b"[}"[..], b"{]", b"[", b"{", b"[]", b"{}", b"\"", b"[1,", b"{\"a\":", b"]", b"-", b"\"\\u12"])).to_vec(),
+                    _ => spell(&gen_val(rng, 2, true), rng, 1),
+                };
+                if rng.chance(1, 2) {
+                    let other = frag.clone();
+                    mutate(rng, &mut frag, &other);
+                }
+                let sep: &[u8] = *rng.pick(&[&b" "[..], b"\n", b"", b",", b"\r\n"]);
+                let times = rng.range(60, 400);
+                let mut data = Vec::new();
+                for _ in 0..times {
+                    if data.len() + frag.len() + sep.len() > 4000 {
+                        break;
+                    }
+                    data.extend_from_slice(&frag);
+                    data.extend_from_slice(sep);
+                }
+                if rng.chance(1, 2) {
+                    // and then something ordinary
+                    data.extend_from_slice(&spell(&gen_val(rng, 2, true), rng, 1));
+                    data.push(b'\n');
+                }
                 case.pieces = vec![Piece::raw(data)];
                 if rng.chance(1, 2) {
                     let mut wish = PipeWish::any();
@@ -318,12 +366,28 @@ impl Property for C05 {
         }
         let len = case.stream().len();
         case.delivery = gen_delivery(rng, len);
+        if matches!(family, "mutated" | "alphabet" | "nesting" | "repeated") && rng.chance(1, 4) {
+            // the same hostile bytes as a file argument behind the opener seam, in seeded
+            // chunks underneath jawk's own BufReader (first chunks of 1-2 bytes included)
+            let mut plan = gen_file_plan(rng, len);
+            if rng.chance(1, 2) {
+                plan.chunks.insert(0, rng.range(1, 3));
+            }
+            case.files = vec![plan];
+        }
         case
     }
 
     fn check(&self, case: &Case, ctx: &mut Ctx) -> Option<Violation> {
         let input = case.stream();
-        let mut spec = case_spec(case, &input);
+        let on_file = case.files.len() == 1 && !case.opts.iter().flatten().any(|t| t.contains('&'));
+        let mut spec = if on_file {
+            let paths = ctx.fresh_paths(1);
+            ctx.stats.probe("hostile stream delivered as a file argument");
+            sim_files_spec(case, &paths, &[input.clone()], &case.files)
+        } else {
+            case_spec(case, &input)
+        };
         spec.max_events = 400_000;
         let r = ctx.exec(spec);
         let reads = r
@@ -333,8 +397,8 @@ impl Property for C05 {
             .filter(|e| e.chan == Chan::Read && !matches!(e.res, Res::Intr))
             .count();
         match case.family.as_str() {
-            "mutated" | "alphabet" | "nesting" => {
-                if r.obs.consumed > 0 || input.is_empty() {
+            "mutated" | "alphabet" | "nesting" | "repeated" => {
+                if r.obs.consumed > 0 || r.obs.delivered > 0 || input.is_empty() {
                     ctx.stats.nontrivial = true;
                 }
                 if let Some(m) = case.strs.get("mutations") {
@@ -356,7 +420,7 @@ impl Property for C05 {
         if let Outcome::Abort(why) = &r.outcome {
             return viol("C05.terminates", format!("jawk does not finish on a {}-byte stream: {why}", input.len()));
         }
-        if !case.delivery.whole && case.delivery.bufcap.is_none() && reads > 2 * input.len() + 64 {
+        if (on_file || (!case.delivery.whole && case.delivery.bufcap.is_none())) && reads > 2 * input.len() + 64 {
             return viol(
                 "C05.terminates",
                 format!("{reads} read calls for a {}-byte stream", input.len()),
